@@ -34,6 +34,9 @@ FUNCTIONS = [
     "unified_planning.model.mixins.initial_state:InitialStateMixin.initial_values.fget",
     "unified_planning.model.transition:UntimedEffectMixin.add_effect",
     "unified_planning.model.transition:UntimedEffectMixin.add_increase_effect",
+    "unified_planning.model.transition:UntimedEffectMixin.add_decrease_effect",
+    "unified_planning.model.problem:Problem.add_decrease_effect",
+    "unified_planning.model.mixins.timed_conds_effs:TimedCondsEffs.add_decrease_effect",
     "unified_planning.model.mixins.timed_conds_effs:TimedCondsEffs.add_effect",
     "unified_planning.model.problem:Problem.add_timed_effect",
     "unified_planning.plans.plan:ActionInstance.__init__",
@@ -43,7 +46,7 @@ BOUNDS = ("(quick ranges; thorough: bounds in [-12,12], values in [-40,40], k in
           "values: int v symbolic in [-8,8] and rational (2k+1)/2 with k symbolic in [-4,3], true/false, objects of T, S and an unrelated type U, fluent expressions (same type; Boolean; "
           "int[a,b] with symbolic a <= b), parameter expressions, g + c with concrete bounds and constant; calls: set_initial_value (fresh and over an existing value), add_fluent with "
           "default_initial_value (Fluent object or name+type), Problem(initial_defaults=...) followed by add_fluent, add_effect on InstantaneousAction / "
-          "DurativeAction / Problem.add_timed_effect, add_increase_effect, ActionInstance")
+          "DurativeAction / Problem.add_timed_effect, add_increase_effect and add_decrease_effect on all three containers, ActionInstance")
 OUTSIDE = ("Effect.set_value and other setters that bypass add_effect; multi-agent / scheduling / contingent problem classes (same mixins); parameterised fluents with "
            "non-constant arguments; empty numeric types (lo > hi); real bounds and values with denominators other than 1 and 2")
 ASSUMPTIONS = ["hash-consing tables keyed syntactically (node sharing is not the subject)",
@@ -391,7 +394,7 @@ def _action_snapshot(a, kind):
 
 
 def h_effect(ctx, container, ftypes, vkinds, ekind="assign", wide=False):
-    """container in ia / da / pb; ekind in assign / increase."""
+    """container in ia / da / pb; ekind in assign / increase / decrease."""
     import unified_planning as up
     from unified_planning.model import GlobalStartTiming, StartTiming
 
@@ -424,12 +427,14 @@ def h_effect(ctx, container, ftypes, vkinds, ekind="assign", wide=False):
     val = _value(ctx, w, vkind, decl, holder=p, allow_param=(a.parameter("q") if a is not None else None))
     before = _problem_snapshot(p) if p is not None else _action_snapshot(a, container)
     try:
+        meth = {"assign": "add_effect" if a is not None else "add_timed_effect", "increase": "add_increase_effect",
+                "decrease": "add_decrease_effect"}[ekind]
         if container == "ia":
-            (a.add_effect if ekind == "assign" else a.add_increase_effect)(f, val.raw)
+            getattr(a, meth)(f, val.raw)
         elif container == "da":
-            (a.add_effect if ekind == "assign" else a.add_increase_effect)(StartTiming(), f, val.raw)
+            getattr(a, meth)(StartTiming(), f, val.raw)
         else:
-            (p.add_timed_effect if ekind == "assign" else p.add_increase_effect)(GlobalStartTiming(5), f, val.raw)
+            getattr(p, meth)(GlobalStartTiming(5), f, val.raw)
     except rej:
         after = _problem_snapshot(p) if p is not None else _action_snapshot(a, container)
         if p is not None:
@@ -446,8 +451,8 @@ def h_effect(ctx, container, ftypes, vkinds, ekind="assign", wide=False):
         effs = p.timed_effects[GlobalStartTiming(5)]
     ctx.check(len(effs) == 2 and effs[-1].fluent.fluent() is f, f"{tag}:not-stored", f"accepted but the effect is not the last stored effect ({desc})")
     _check_compatible(ctx, decl, val, tag, desc)
-    if ekind == "increase":
-        ctx.check(decl.sort in ("int", "real"), f"{tag}:accepted-on-non-numeric", f"increase effect accepted on a {decl.sort} fluent ({desc})")
+    if ekind in ("increase", "decrease"):
+        ctx.check(decl.sort in ("int", "real"), f"{tag}:accepted-on-non-numeric", f"{ekind} effect accepted on a {decl.sort} fluent ({desc})")
     ctx.witness("accepted")
 
 
@@ -504,9 +509,11 @@ def shards(tier, seed):
         sh(f"effect-{cont}-num", "h_effect", b, container=cont, ftypes=num, vkinds=eff_vk)
         sh(f"effect-{cont}-other", "h_effect", b, container=cont, ftypes=half + oth, vkinds=eff_vk)
     sh("effect-increase", "h_effect", b, container="ia", ekind="increase", ftypes=FTYPES, vkinds=["int", "half", "true", "obj-T", "fluent-int", "plus"])
-    if tier != "quick":
-        sh("effect-increase-da", "h_effect", b, container="da", ekind="increase", ftypes=FTYPES, vkinds=eff_vk)
-        sh("effect-increase-pb", "h_effect", b, container="pb", ekind="increase", ftypes=FTYPES, vkinds=eff_vk)
+    incdec_vk = ["int", "half", "true", "obj-T", "fluent-int", "plus"]
+    sh("effect-decrease", "h_effect", b, container="ia", ekind="decrease", ftypes=FTYPES, vkinds=incdec_vk)
+    for cont in ("da", "pb"):  # each of the nine add_*effect methods has its own copy of the compatibility test
+        for ek in ("increase", "decrease"):
+            sh(f"effect-{ek}-{cont}", "h_effect", b, container=cont, ekind=ek, ftypes=FTYPES, vkinds=incdec_vk if tier == "quick" else eff_vk)
     sh("param-num", "h_param", b, ftypes=num + half, vkinds=VKINDS_CONST + ["fluent-same", "fluent-int", "plus", "param"])
     sh("param-other", "h_param", b, ftypes=oth, vkinds=VKINDS_CONST + ["false", "fluent-same", "fluent-bool", "param"])
     return out
